@@ -223,3 +223,682 @@ Proof.
   { intros x Hx. apply in_seq in Hx. apply H. lia. }
   apply NoDup_incl_length in H0; [|apply seq_NoDup]. rewrite seq_length in H0. lia.
 Qed.
+
+(** ** [updf], [updm], [note_binding] *)
+
+Lemma updf_same {A} (f : nat -> A) t x : updf f t x t = x.
+Proof. unfold updf. rewrite Nat.eqb_refl. reflexivity. Qed.
+
+Lemma updf_other {A} (f : nat -> A) t x t' : t' <> t -> updf f t x t' = f t'.
+Proof. intros H. unfold updf. destruct (Nat.eqb_spec t' t); [contradiction|reflexivity]. Qed.
+
+Lemma updm_same m k x : updm m k x k = x.
+Proof. unfold updm. rewrite N.eqb_refl. reflexivity. Qed.
+
+Lemma updm_other m k x k' : k' <> k -> updm m k x k' = m k'.
+Proof. intros H. unfold updm. destruct (N.eqb_spec k' k); [contradiction|reflexivity]. Qed.
+
+Lemma nb_op thr k x t : t_op (note_binding thr k x t) = t_op (thr t).
+Proof.
+  unfold note_binding. destruct (t_op (thr t)) as [o|] eqn:E; [|exact E].
+  destruct (op_key o =? k); [reflexivity|exact E].
+Qed.
+
+Lemma nb_pc thr k x t : t_pc (note_binding thr k x t) = t_pc (thr t).
+Proof.
+  unfold note_binding. destruct (t_op (thr t)) as [o|]; [|reflexivity].
+  destruct (op_key o =? k); reflexivity.
+Qed.
+
+Lemma nb_seen_incl thr k x t : incl (t_seen (thr t)) (t_seen (note_binding thr k x t)).
+Proof.
+  unfold note_binding. destruct (t_op (thr t)) as [o|]; [|apply incl_refl].
+  destruct (op_key o =? k); [|apply incl_refl]. cbn [t_seen]. apply incl_tl, incl_refl.
+Qed.
+
+Lemma nb_seen_bm thr m k x t o :
+  t_op (thr t) = Some o -> In (m (op_key o)) (t_seen (thr t)) ->
+  In (updm m k x (op_key o)) (t_seen (note_binding thr k x t)).
+Proof.
+  intros Ho Hin. unfold note_binding, updm. rewrite Ho.
+  destruct (op_key o =? k); cbn [t_seen In]; auto.
+Qed.
+
+Lemma nb_seen_self thr k x t o :
+  t_op (thr t) = Some o -> op_key o = k -> t_seen (note_binding thr k x t) = x :: t_seen (thr t).
+Proof. intros Ho Hk. unfold note_binding. rewrite Ho, Hk, N.eqb_refl. reflexivity. Qed.
+
+(** ** The invariant *)
+
+Definition in_cs (p : bpc) : bool :=
+  match p with
+  | PValidate _ _ | PUnlockRetry | PRelook _ | PInsDel | PStoreKey _ _ | PStoreLv _ _
+  | PStorePerm _ _ | PUnlockIns | POverwrite _ | PClear _ _ | PShrink _ | PUnlockPlain _ => true
+  | _ => false
+  end.
+
+(** the inserting_deleting bit is set exactly in this phase of the lock holder *)
+Definition in_ins (p : bpc) : bool :=
+  match p with
+  | PStoreKey _ _ | PStoreLv _ _ | PStorePerm _ _ | PUnlockIns => true
+  | _ => false
+  end.
+
+Definition plain (p : bpc) : bool :=
+  match p with PShrink _ | PStorePerm _ _ => false | _ => true end.
+
+Definition is_get (o : bop) : Prop := match o with OpGet _ => True | _ => False end.
+Definition is_rem (o : bop) : Prop := match o with OpRem _ => True | _ => False end.
+Definition op_ok (o : bop) : Prop := match o with OpPut _ v | OpUput _ v => v <> 0 | _ => True end.
+
+(** what a result claims about the bindings seen during the operation *)
+Definition res_ok (o : bop) (seen : list (option N)) (r : bres) : Prop :=
+  match o, r with
+  | OpGet _, ROkVal w => w <> 0 /\ In (Some w) seen
+  | OpGet _, RNotExist => In None seen
+  | OpPut _ v, ROk => In (Some v) seen
+  | OpUput _ v, ROk => In (Some v) seen
+  | OpUput _ _, RUnique => exists w, In (Some w) seen
+  | OpRem _, ROk => In None seen
+  | OpRem _, RNotFound => In None seen
+  | _, _ => False
+  end.
+
+Lemma res_ok_incl o seen seen' r : incl seen seen' -> res_ok o seen r -> res_ok o seen' r.
+Proof.
+  intros Hi. destruct o, r; cbn [res_ok]; auto.
+  - intros [H1 H2]; auto.
+  - intros [w H]; eauto.
+Qed.
+
+(** the node represents the map (a cleared word = unbound: a remove between
+    its two stores) *)
+Definition RepP (ks : nat -> N) (pm : list nat) (lv : nat -> N) (m : N -> option N) : Prop :=
+  forall k,
+    (forall sl, In sl pm -> ks sl = k -> m k = if lv sl =? 0 then None else Some (lv sl)) /\
+    ((forall sl, In sl pm -> ks sl <> k) -> m k = None).
+
+Section ThreadInv.
+  Variables (ins : bool) (vi : N) (pm : list nat) (ks lv : nat -> N) (m : N -> option N).
+
+  (** "no insert completed or started writing keys since version [v] was validated" *)
+  Definition Cnd (v : N) : Prop := vi = v /\ ins = false.
+  Definition absent (k : N) : Prop := forall sl, In sl pm -> ks sl <> k.
+  Definition some_seen (seen : list (option N)) : Prop := exists w, In (Some w) seen.
+  Definition found_ok (k : N) (seen : list (option N)) (v : N) (found : option nat) : Prop :=
+    v <= vi /\
+    (Cnd v -> match found with None => absent k | Some sl => ks sl = k /\ some_seen seen end).
+  Definition insert_pos (k : N) (r : nat) : Prop :=
+    (r <= length pm)%nat /\
+    (forall a, In a (firstn r pm) -> ks a < k) /\
+    (forall a, In a (skipn r pm) -> k < ks a).
+
+  Definition TP (o : bop) (seen : list (option N)) (pc : bpc) : Prop :=
+    let k := op_key o in
+    match pc with
+    | PIdle | PStable0 | PUnlockRetry | PRelook _ => True
+    | PPerm v => v <= vi /\ (Cnd v -> forall sl, In sl pm -> ks sl = k -> some_seen seen)
+    | PSearch v rest =>
+      v <= vi /\
+      (Cnd v -> ksorted ks rest /\ (forall sl, In sl pm -> ks sl = k -> In sl rest) /\
+                (forall sl, In sl rest -> ks sl = k -> some_seen seen))
+    | PCheck1 v found => found_ok k seen v found
+    | PLoadLv v sl => is_get o /\ found_ok k seen v (Some sl)
+    | PFinal v sl w => is_get o /\ v <= vi /\ (Cnd v -> w = 0 \/ In (Some w) seen)
+    | PRemFinal v => is_rem o /\ found_ok k seen v None
+    | PLock v found => found_ok k seen v found
+    | PValidate v found => found_ok k seen v found
+    | PInsDel => absent k
+    | PStoreKey sl r => ~ In sl pm /\ insert_pos k r
+    | PStoreLv sl r => ~ In sl pm /\ insert_pos k r /\ ks sl = k
+    | PStorePerm sl r =>
+      ~ In sl pm /\ insert_pos k r /\ ks sl = k /\
+      match o with OpPut _ v | OpUput _ v => lv sl = v | _ => True end
+    | PUnlockIns => res_ok o seen ROk
+    | POverwrite sl => In sl pm /\ ks sl = k
+    | PClear sl rk => is_rem o /\ (rk < length pm)%nat /\ nth rk pm 0%nat = sl /\ ks sl = k
+    | PShrink rk =>
+      is_rem o /\ (rk < length pm)%nat /\ ks (nth rk pm 0%nat) = k /\ lv (nth rk pm 0%nat) = 0 /\
+      In None seen
+    | PUnlockPlain r => res_ok o seen r
+    | PDone r => res_ok o seen r
+    end.
+
+  Definition TI (th : bthread) : Prop :=
+    match t_op th with
+    | None => t_pc th = PIdle
+    | Some o => op_ok o /\ In (m (op_key o)) (t_seen th) /\ TP o (t_seen th) (t_pc th)
+    end.
+End ThreadInv.
+
+(** the shared words as seen while thread at [p] holds the lock *)
+Definition sview_cs (s : bstate) (p : bpc) : Prop :=
+  b_locked s = true /\ b_insdel s = in_ins p /\
+  (forall sl, In sl (b_perm s) -> b_lvs s sl = 0 ->
+     match p with PShrink rk => sl = nth rk (b_perm s) 0%nat | _ => False end) /\
+  (forall sl, ~ In sl (b_perm s) -> b_lvs s sl <> 0 ->
+     match p with PStorePerm sl' _ => sl = sl' | _ => False end).
+
+Definition sview_free (s : bstate) : Prop :=
+  b_insdel s = false /\
+  (forall sl, In sl (b_perm s) -> b_lvs s sl <> 0) /\
+  (forall sl, ~ In sl (b_perm s) -> b_lvs s sl = 0).
+
+Definition TIs (s : bstate) (th : bthread) : Prop :=
+  TI (b_insdel s) (b_vins s) (b_perm s) (b_keys s) (b_lvs s) (bm s) th.
+
+Record Inv (s : bstate) : Prop := {
+  I_uniq : forall t1 t2, in_cs (t_pc (b_thr s t1)) = true -> in_cs (t_pc (b_thr s t2)) = true -> t1 = t2;
+  I_holder : b_locked s = true -> exists t, in_cs (t_pc (b_thr s t)) = true;
+  I_cs : forall t, in_cs (t_pc (b_thr s t)) = true -> sview_cs s (t_pc (b_thr s t));
+  I_free : b_locked s = false -> sview_free s;
+  I_sorted : ksorted (b_keys s) (b_perm s);
+  I_rep : RepP (b_keys s) (b_perm s) (b_lvs s) (bm s);
+  I_thr : forall t, TIs s (b_thr s t)
+}.
+
+Lemma inv_init : Inv binit.
+Proof.
+  constructor; cbn; try discriminate; auto.
+  - intros _. repeat split; auto.
+  - intros k. split; auto.
+Qed.
+
+Lemma inv_unlocked_nocs s t : Inv s -> b_locked s = false -> in_cs (t_pc (b_thr s t)) = false.
+Proof.
+  intros HI Hl. destruct (in_cs (t_pc (b_thr s t))) eqn:E; [|reflexivity].
+  destruct (I_cs s HI t E) as [H _]. congruence.
+Qed.
+
+Lemma inv_cs_other s t t' :
+  Inv s -> in_cs (t_pc (b_thr s t)) = true -> t' <> t -> in_cs (t_pc (b_thr s t')) = false.
+Proof.
+  intros HI Hc Hne. destruct (in_cs (t_pc (b_thr s t'))) eqn:E; [|reflexivity].
+  exfalso. apply Hne. eapply I_uniq; eauto.
+Qed.
+
+(** slots outside the permutation hold the cleared word unless an insert is
+    in its store phase *)
+Lemma inv_free_zero s sl :
+  Inv s -> b_insdel s = false -> ~ In sl (b_perm s) -> b_lvs s sl = 0.
+Proof.
+  intros HI Hins Hnin. destruct (b_locked s) eqn:L.
+  - destruct (I_holder s HI L) as [t Ht]. destruct (I_cs s HI t Ht) as (_ & Hi & _ & Hf).
+    destruct (N.eq_dec (b_lvs s sl) 0) as [E|E]; [exact E|]. exfalso.
+    specialize (Hf sl Hnin E). destruct (t_pc (b_thr s t)); try contradiction.
+    cbn in Hi. congruence.
+  - destruct (I_free s HI L) as (_ & _ & Hf). auto.
+Qed.
+
+Lemma some_seen_incl seen seen' : incl seen seen' -> some_seen seen -> some_seen seen'.
+Proof. intros Hi [w H]. exists w. auto. Qed.
+
+Lemma found_ok_frame ins vi pm ks ins' vi' pm' ks' k seen seen' v found :
+  found_ok ins vi pm ks k seen v found ->
+  incl seen seen' ->
+  vi <= vi' ->
+  (forall v, v <= vi -> vi' = v -> ins' = false ->
+     vi = v /\ ins = false /\ (forall sl, ks' sl = ks sl) /\ incl pm' pm) ->
+  found_ok ins' vi' pm' ks' k seen' v found.
+Proof.
+  intros [Hle HC] Hincl Hv F. split; [lia|]. intros [E1 E2].
+  destruct (F v Hle E1 E2) as (A & B & Ck & Ip). specialize (HC (conj A B)).
+  destruct found as [sl|].
+  - rewrite Ck. destruct HC as [H1 H2]. split; [exact H1|]. eapply some_seen_incl; eauto.
+  - intros sl Hsl. rewrite Ck. apply HC. apply Ip. exact Hsl.
+Qed.
+
+(** threads outside the critical section: their facts survive every change of
+    the shared words that keeps keys and shrinks the permutation as long as
+    their validated counter is current *)
+Lemma TI_frame ins vi pm ks lv m ins' vi' pm' ks' lv' m' th th' :
+  TI ins vi pm ks lv m th ->
+  t_op th' = t_op th -> t_pc th' = t_pc th -> incl (t_seen th) (t_seen th') ->
+  in_cs (t_pc th) = false ->
+  vi <= vi' ->
+  (forall v, v <= vi -> vi' = v -> ins' = false ->
+     vi = v /\ ins = false /\ (forall sl, ks' sl = ks sl) /\ incl pm' pm) ->
+  (forall o, t_op th = Some o -> In (m' (op_key o)) (t_seen th')) ->
+  TI ins' vi' pm' ks' lv' m' th'.
+Proof.
+  destruct th as [op pc seen], th' as [op' pc' seen']. cbn [t_op t_pc t_seen].
+  intros HT -> -> Hincl Hcs Hv F Hm. unfold TI in *. cbn [t_op t_pc t_seen] in *.
+  destruct op as [o|]; [|exact HT]. destruct HT as (Hok & _ & HP).
+  split; [exact Hok|]. split; [apply Hm; reflexivity|].
+  destruct pc; cbn [in_cs] in Hcs; try discriminate; cbn [TP] in *; auto.
+  - destruct HP as [Hle HC]. split; [lia|]. intros [E1 E2].
+    destruct (F v Hle E1 E2) as (A & B & Ck & Ip). specialize (HC (conj A B)).
+    intros sl Hsl Hk. eapply some_seen_incl; [exact Hincl|].
+    apply (HC sl); [apply Ip; exact Hsl|]. rewrite <- Ck. exact Hk.
+  - destruct HP as [Hle HC]. split; [lia|]. intros [E1 E2].
+    destruct (F v Hle E1 E2) as (A & B & Ck & Ip). destruct (HC (conj A B)) as (S1 & S2 & S3).
+    split; [|split].
+    + eapply ksorted_ext; [|exact S1]. intros; apply Ck.
+    + intros sl Hsl Hk. apply S2; [apply Ip; exact Hsl|]. rewrite <- Ck. exact Hk.
+    + intros sl Hsl Hk. eapply some_seen_incl; [exact Hincl|]. apply (S3 sl Hsl).
+      rewrite <- Ck. exact Hk.
+  - eapply found_ok_frame; eauto.
+  - destruct HP as [Hg HP]. split; [exact Hg|]. eapply found_ok_frame; eauto.
+  - destruct HP as (Hg & Hle & HC). split; [exact Hg|]. split; [lia|]. intros [E1 E2].
+    destruct (F v Hle E1 E2) as (A & B & _). destruct (HC (conj A B)) as [H|H]; auto.
+  - destruct HP as [Hg HP]. split; [exact Hg|]. eapply found_ok_frame; eauto.
+  - eapply found_ok_frame; eauto.
+  - eapply res_ok_incl; eauto.
+Qed.
+
+(** ** Three step schemes *)
+
+Lemma TIs_same_shared s s' th :
+  b_insdel s' = b_insdel s -> b_vins s' = b_vins s -> b_perm s' = b_perm s ->
+  b_keys s' = b_keys s -> b_lvs s' = b_lvs s -> bm s' = bm s ->
+  TIs s th -> TIs s' th.
+Proof. unfold TIs. intros -> -> -> -> -> ->. auto. Qed.
+
+(** a step that changes only the stepping thread *)
+Lemma inv_local_step s s' t th' :
+  Inv s ->
+  b_locked s' = b_locked s -> b_insdel s' = b_insdel s -> b_vins s' = b_vins s ->
+  b_perm s' = b_perm s -> b_keys s' = b_keys s -> b_lvs s' = b_lvs s -> bm s' = bm s ->
+  b_thr s' t = th' -> (forall t', t' <> t -> b_thr s' t' = b_thr s t') ->
+  in_cs (t_pc th') = in_cs (t_pc (b_thr s t)) ->
+  in_ins (t_pc th') = in_ins (t_pc (b_thr s t)) ->
+  plain (t_pc th') = true -> plain (t_pc (b_thr s t)) = true ->
+  TIs s th' ->
+  Inv s'.
+Proof.
+  intros HI El Ei Ev Ep Ek Elv Em Et Eo Hcs Hins Hp' Hp HT.
+  assert (Hpc : forall t', in_cs (t_pc (b_thr s' t')) = in_cs (t_pc (b_thr s t'))).
+  { intros t'. destruct (Nat.eq_dec t' t) as [->|Hne]; [rewrite Et; exact Hcs|rewrite Eo; auto]. }
+  constructor.
+  - intros t1 t2. rewrite !Hpc. apply (I_uniq s HI).
+  - rewrite El. intros L. destruct (I_holder s HI L) as [t0 H0]. exists t0. rewrite Hpc. exact H0.
+  - intros t'. rewrite Hpc. intros Hc. pose proof (I_cs s HI t' Hc) as (V1 & V2 & V3 & V4).
+    unfold sview_cs. rewrite El, Ei, Ep, Elv.
+    destruct (Nat.eq_dec t' t) as [->|Hne].
+    + rewrite Et. rewrite Hins. repeat split; auto.
+      * intros sl H1 H2. specialize (V3 sl H1 H2).
+        destruct (t_pc (b_thr s t)); try contradiction. discriminate Hp.
+      * intros sl H1 H2. specialize (V4 sl H1 H2).
+        destruct (t_pc (b_thr s t)); try contradiction. discriminate Hp.
+    + rewrite Eo by auto. repeat split; auto.
+  - rewrite El. intros L. pose proof (I_free s HI L) as (F1 & F2 & F3).
+    unfold sview_free. rewrite Ei, Ep, Elv. auto.
+  - rewrite Ek, Ep. apply (I_sorted s HI).
+  - rewrite Ek, Ep, Elv, Em. apply (I_rep s HI).
+  - intros t'. apply (TIs_same_shared s); auto.
+    destruct (Nat.eq_dec t' t) as [->|Hne]; [rewrite Et; exact HT|rewrite Eo by auto; apply (I_thr s HI)].
+Qed.
+
+(** a step of the lock holder *)
+Lemma inv_holder_step s s' t p' :
+  Inv s ->
+  in_cs (t_pc (b_thr s t)) = true ->
+  t_pc (b_thr s' t) = p' ->
+  (forall t', t' <> t ->
+     t_op (b_thr s' t') = t_op (b_thr s t') /\ t_pc (b_thr s' t') = t_pc (b_thr s t') /\
+     incl (t_seen (b_thr s t')) (t_seen (b_thr s' t')) /\
+     (forall o, t_op (b_thr s t') = Some o -> In (bm s (op_key o)) (t_seen (b_thr s t')) ->
+                In (bm s' (op_key o)) (t_seen (b_thr s' t')))) ->
+  b_vins s <= b_vins s' ->
+  (forall v, v <= b_vins s -> b_vins s' = v -> b_insdel s' = false ->
+     b_vins s = v /\ b_insdel s = false /\ (forall sl, b_keys s' sl = b_keys s sl) /\
+     incl (b_perm s') (b_perm s)) ->
+  (if in_cs p' then sview_cs s' p' else b_locked s' = false /\ sview_free s') ->
+  ksorted (b_keys s') (b_perm s') ->
+  RepP (b_keys s') (b_perm s') (b_lvs s') (bm s') ->
+  TIs s' (b_thr s' t) ->
+  Inv s'.
+Proof.
+  intros HI Hc Ep Ho Hv F Hview Hsort Hrep HT.
+  assert (Hoth : forall t', in_cs (t_pc (b_thr s' t')) = true -> t' = t).
+  { intros t' H. destruct (Nat.eq_dec t' t) as [|Hne]; [assumption|].
+    destruct (Ho t' Hne) as (_ & E & _). rewrite E in H.
+    rewrite (inv_cs_other s t t' HI Hc Hne) in H. discriminate. }
+  constructor; auto.
+  - intros t1 t2 H1 H2. rewrite (Hoth _ H1), (Hoth _ H2). reflexivity.
+  - intros L. exists t. rewrite Ep. destruct (in_cs p'); [reflexivity|].
+    destruct Hview as [L' _]. congruence.
+  - intros t' H. pose proof (Hoth _ H). subst t'. rewrite Ep in *. rewrite H in Hview. exact Hview.
+  - intros L. destruct (in_cs p').
+    + destruct Hview as [L' _]. congruence.
+    + apply Hview.
+  - intros t'. destruct (Nat.eq_dec t' t) as [->|Hne]; [exact HT|].
+    destruct (Ho t' Hne) as (E1 & E2 & E3 & E4).
+    pose proof (I_thr s HI t') as HT'. unfold TIs in *.
+    eapply TI_frame; eauto.
+    + apply (inv_cs_other s t t' HI Hc Hne).
+    + intros o Hop. apply E4; auto. unfold TI in HT'. rewrite Hop in HT'. apply HT'.
+Qed.
+
+(** a successful CAS on the lock bit *)
+Lemma inv_lock_step s s' t th' :
+  Inv s ->
+  b_locked s = false -> b_locked s' = true ->
+  b_insdel s' = b_insdel s -> b_vins s' = b_vins s ->
+  b_perm s' = b_perm s -> b_keys s' = b_keys s -> b_lvs s' = b_lvs s -> bm s' = bm s ->
+  b_thr s' t = th' -> (forall t', t' <> t -> b_thr s' t' = b_thr s t') ->
+  in_cs (t_pc th') = true -> in_ins (t_pc th') = false -> plain (t_pc th') = true ->
+  TIs s th' ->
+  Inv s'.
+Proof.
+  intros HI L L' Ei Ev Ep Ek Elv Em Et Eo Hcs Hins Hp HT.
+  assert (Hoth : forall t', in_cs (t_pc (b_thr s' t')) = true -> t' = t).
+  { intros t' H. destruct (Nat.eq_dec t' t) as [|Hne]; [assumption|].
+    rewrite Eo in H by auto. rewrite (inv_unlocked_nocs s t' HI L) in H. discriminate. }
+  pose proof (I_free s HI L) as (F1 & F2 & F3).
+  constructor.
+  - intros t1 t2 H1 H2. rewrite (Hoth _ H1), (Hoth _ H2). reflexivity.
+  - intros _. exists t. rewrite Et. exact Hcs.
+  - intros t' H. pose proof (Hoth _ H). subst t'. rewrite Et.
+    unfold sview_cs. rewrite Ei, Ep, Elv, Hins. repeat split; auto.
+    + intros sl H1 H2. exfalso. apply (F2 sl H1 H2).
+    + intros sl H1 H2. exfalso. apply H2. apply F3. exact H1.
+  - congruence.
+  - rewrite Ek, Ep. apply (I_sorted s HI).
+  - rewrite Ek, Ep, Elv, Em. apply (I_rep s HI).
+  - intros t'. apply (TIs_same_shared s); auto.
+    destruct (Nat.eq_dec t' t) as [->|Hne]; [rewrite Et; exact HT|rewrite Eo by auto; apply (I_thr s HI)].
+Qed.
+
+(** ** Steps outside the critical section *)
+
+Lemma inv_thr_facts s t o :
+  Inv s -> t_op (b_thr s t) = Some o ->
+  op_ok o /\ In (bm s (op_key o)) (t_seen (b_thr s t)) /\
+  TP (b_insdel s) (b_vins s) (b_perm s) (b_keys s) (b_lvs s) o (t_seen (b_thr s t)) (t_pc (b_thr s t)).
+Proof. intros HI Ho. pose proof (I_thr s HI t) as H. unfold TIs, TI in H. rewrite Ho in H. exact H. Qed.
+
+Lemma inv_set_pc s t o p' :
+  Inv s -> t_op (b_thr s t) = Some o ->
+  in_cs p' = in_cs (t_pc (b_thr s t)) -> in_ins p' = in_ins (t_pc (b_thr s t)) ->
+  plain p' = true -> plain (t_pc (b_thr s t)) = true ->
+  TP (b_insdel s) (b_vins s) (b_perm s) (b_keys s) (b_lvs s) o (t_seen (b_thr s t)) p' ->
+  Inv (set_pc s t p').
+Proof.
+  intros HI Ho H1 H2 H3 H4 HP. destruct (inv_thr_facts s t o HI Ho) as (Hok & Hin & _).
+  apply (inv_local_step s (set_pc s t p') t
+           {| t_op := t_op (b_thr s t); t_pc := p'; t_seen := t_seen (b_thr s t) |});
+    try reflexivity; try assumption.
+  - cbn [set_pc b_thr]. apply updf_same.
+  - intros t' Hne. cbn [set_pc b_thr]. apply updf_other. exact Hne.
+  - unfold TIs, TI. cbn [t_op t_pc t_seen]. rewrite Ho. auto.
+Qed.
+
+Lemma stable_true s : stable s = true -> b_locked s = false /\ b_insdel s = false.
+Proof. unfold stable. destruct (b_locked s), (b_insdel s); cbn; intuition discriminate. Qed.
+
+Lemma stable_false s : negb (stable s) = false -> b_locked s = false /\ b_insdel s = false.
+Proof. intros H. apply stable_true. destruct (stable s); [reflexivity|discriminate]. Qed.
+
+Ltac noncs H := rewrite H; reflexivity.
+
+(** at a stable moment a key that is in the permutation is bound, and the
+    binding is on the ghost list *)
+Lemma stable_some_seen s t o :
+  Inv s -> t_op (b_thr s t) = Some o -> b_locked s = false ->
+  forall sl, In sl (b_perm s) -> b_keys s sl = op_key o -> some_seen (t_seen (b_thr s t)).
+Proof.
+  intros HI Ho L sl Hsl Hk. destruct (inv_thr_facts s t o HI Ho) as (_ & Hin & _).
+  pose proof (I_rep s HI (op_key o)) as [R1 _]. rewrite (R1 sl Hsl Hk) in Hin.
+  pose proof (I_free s HI L) as (_ & F2 & _).
+  destruct (N.eqb_spec (b_lvs s sl) 0) as [E|E]; [exfalso; eapply F2; eauto|].
+  exists (b_lvs s sl). exact Hin.
+Qed.
+
+(** (re)start of the optimistic search at a stable version *)
+Lemma step_to_perm s t o :
+  Inv s -> t_op (b_thr s t) = Some o -> in_cs (t_pc (b_thr s t)) = false ->
+  b_locked s = false ->
+  Inv (set_pc s t (PPerm (b_vins s))).
+Proof.
+  intros HI Ho Hcs L. apply (inv_set_pc s t o); auto.
+  - destruct (t_pc (b_thr s t)); try discriminate; reflexivity.
+  - destruct (t_pc (b_thr s t)); try discriminate; reflexivity.
+  - cbn [TP]. split; [lia|]. intros _ sl Hsl Hk. eapply stable_some_seen; eauto.
+Qed.
+
+Lemma step_to_stable0 s t o :
+  Inv s -> t_op (b_thr s t) = Some o -> in_cs (t_pc (b_thr s t)) = false ->
+  Inv (set_pc s t PStable0).
+Proof.
+  intros HI Ho Hcs. apply (inv_set_pc s t o); auto.
+  - destruct (t_pc (b_thr s t)); try discriminate; reflexivity.
+  - destruct (t_pc (b_thr s t)); try discriminate; reflexivity.
+  - exact I.
+Qed.
+
+Lemma step_perm s t o v :
+  Inv s -> t_op (b_thr s t) = Some o -> t_pc (b_thr s t) = PPerm v ->
+  Inv (set_pc s t (PSearch v (b_perm s))).
+Proof.
+  intros HI Ho Hpc. destruct (inv_thr_facts s t o HI Ho) as (_ & _ & HP).
+  rewrite Hpc in HP. cbn [TP] in HP. destruct HP as [Hle HC].
+  apply (inv_set_pc s t o); auto; try (noncs Hpc). cbn [TP]. split; [exact Hle|].
+  intros Hc. split; [apply (I_sorted s HI)|]. split; [auto|exact (HC Hc)].
+Qed.
+
+Lemma step_search_nil s t o v :
+  Inv s -> t_op (b_thr s t) = Some o -> t_pc (b_thr s t) = PSearch v [] ->
+  Inv (set_pc s t (PCheck1 v None)).
+Proof.
+  intros HI Ho Hpc. destruct (inv_thr_facts s t o HI Ho) as (_ & _ & HP).
+  rewrite Hpc in HP. cbn [TP] in HP. destruct HP as [Hle HC].
+  apply (inv_set_pc s t o); auto; try (noncs Hpc). cbn [TP]. split; [exact Hle|].
+  intros Hc sl Hsl Hk. destruct (HC Hc) as (_ & S2 & _). apply (S2 sl Hsl Hk).
+Qed.
+
+Lemma step_search_cons s t o v sl rest s' :
+  Inv s -> t_op (b_thr s t) = Some o -> t_pc (b_thr s t) = PSearch v (sl :: rest) ->
+  match search_step (op_key o) (b_keys s sl) with
+  | Some true => Some (set_pc s t (PCheck1 v (Some sl)))
+  | Some false => Some (set_pc s t (PCheck1 v None))
+  | None => Some (set_pc s t (PSearch v rest))
+  end = Some s' ->
+  Inv s'.
+Proof.
+  intros HI Ho Hpc. destruct (inv_thr_facts s t o HI Ho) as (_ & _ & HP).
+  rewrite Hpc in HP. cbn [TP] in HP. destruct HP as [Hle HC].
+  unfold search_step.
+  destruct (N.eqb_spec (b_keys s sl) (op_key o)) as [E|E];
+    [|destruct (N.ltb_spec (op_key o) (b_keys s sl)) as [L|L]];
+    intros H; injection H as <-; apply (inv_set_pc s t o); auto; try (noncs Hpc); cbn [TP].
+  - split; [exact Hle|]. intros Hc. split; [exact E|].
+    destruct (HC Hc) as (_ & _ & S3). apply (S3 sl); cbn; auto.
+  - split; [exact Hle|]. intros Hc. destruct (HC Hc) as ([S1 S2] & S3 & _).
+    intros x Hx Hk. destruct (S3 x Hx Hk) as [<-|Hr]; [lia|]. specialize (S1 x Hr). lia.
+  - split; [exact Hle|]. intros Hc. destruct (HC Hc) as ([S1 S2] & S3 & S4). split; [exact S2|].
+    split.
+    + intros x Hx Hk. destruct (S3 x Hx Hk) as [<-|Hr]; [contradiction|exact Hr].
+    + intros x Hx Hk. apply (S4 x); cbn; auto.
+Qed.
+
+Lemma absent_none_seen s t o :
+  Inv s -> t_op (b_thr s t) = Some o ->
+  absent (b_perm s) (b_keys s) (op_key o) -> In None (t_seen (b_thr s t)).
+Proof.
+  intros HI Ho Hab. destruct (inv_thr_facts s t o HI Ho) as (_ & Hin & _).
+  pose proof (I_rep s HI (op_key o)) as [_ R2]. rewrite <- (R2 Hab). exact Hin.
+Qed.
+
+Lemma step_check1_pass s t o v found s' :
+  Inv s -> t_op (b_thr s t) = Some o -> t_pc (b_thr s t) = PCheck1 v found ->
+  b_insdel s = false -> b_vins s = v ->
+  match o, found with
+  | OpGet _, None => Some (set_pc s t (PDone RNotExist))
+  | OpGet _, Some sl => Some (set_pc s t (PLoadLv v sl))
+  | OpRem _, None => Some (set_pc s t (PRemFinal v))
+  | OpUput _ _, Some _ => Some (set_pc s t (PDone RUnique))
+  | _, _ => Some (set_pc s t (PLock v found))
+  end = Some s' ->
+  Inv s'.
+Proof.
+  intros HI Ho Hpc Hi Hv. destruct (inv_thr_facts s t o HI Ho) as (_ & Hin & HP).
+  rewrite Hpc in HP. cbn [TP] in HP.
+  assert (Hc : Cnd (b_insdel s) (b_vins s) v) by (split; assumption).
+  assert (Hnone : found = None -> In None (t_seen (b_thr s t))).
+  { intros ->. destruct HP as [_ HP]. eapply absent_none_seen; eauto. }
+  assert (Hsome : forall sl, found = Some sl -> some_seen (t_seen (b_thr s t))).
+  { intros sl ->. destruct HP as [_ HP]. apply (HP Hc). }
+  destruct o, found; intros H; injection H as <-; apply (inv_set_pc s t _ _ HI Ho);
+    try (noncs Hpc); try reflexivity; cbn [TP res_ok is_get is_rem]; eauto.
+  eapply Hsome; reflexivity.
+Qed.
+
+Lemma step_loadlv s t o v sl :
+  Inv s -> t_op (b_thr s t) = Some o -> t_pc (b_thr s t) = PLoadLv v sl ->
+  Inv (set_pc s t (PFinal v sl (b_lvs s sl))).
+Proof.
+  intros HI Ho Hpc. destruct (inv_thr_facts s t o HI Ho) as (_ & Hin & HP).
+  rewrite Hpc in HP. cbn [TP] in HP. destruct HP as (Hg & Hle & HC).
+  apply (inv_set_pc s t o); auto; try (noncs Hpc). cbn [TP]. split; [exact Hg|]. split; [exact Hle|].
+  intros Hc. destruct (HC Hc) as [Hk _].
+  destruct (in_dec Nat.eq_dec sl (b_perm s)) as [Hsl|Hsl].
+  - pose proof (I_rep s HI (op_key o)) as [R1 _]. rewrite (R1 sl Hsl Hk) in Hin.
+    destruct (N.eqb_spec (b_lvs s sl) 0) as [E|E]; auto.
+  - left. apply inv_free_zero; auto. apply Hc.
+Qed.
+
+Lemma step_final_pass s t o v sl w :
+  Inv s -> t_op (b_thr s t) = Some o -> t_pc (b_thr s t) = PFinal v sl w ->
+  b_insdel s = false -> b_vins s = v -> w <> 0 ->
+  Inv (set_pc s t (PDone (ROkVal w))).
+Proof.
+  intros HI Ho Hpc Hi Hv Hw. destruct (inv_thr_facts s t o HI Ho) as (_ & Hin & HP).
+  rewrite Hpc in HP. cbn [TP] in HP. destruct HP as (Hg & Hle & HC).
+  apply (inv_set_pc s t o); auto; try (noncs Hpc). cbn [TP].
+  destruct o; try contradiction. cbn [res_ok]. split; [exact Hw|].
+  destruct (HC (conj Hv Hi)) as [E|E]; [contradiction|exact E].
+Qed.
+
+Lemma step_remfinal_pass s t o v :
+  Inv s -> t_op (b_thr s t) = Some o -> t_pc (b_thr s t) = PRemFinal v ->
+  b_insdel s = false -> b_vins s = v ->
+  Inv (set_pc s t (PDone RNotFound)).
+Proof.
+  intros HI Ho Hpc Hi Hv. destruct (inv_thr_facts s t o HI Ho) as (_ & Hin & HP).
+  rewrite Hpc in HP. cbn [TP] in HP. destruct HP as (Hg & Hle & HC).
+  apply (inv_set_pc s t o); auto; try (noncs Hpc). cbn [TP].
+  destruct o; try contradiction. cbn [res_ok]. eapply absent_none_seen; eauto.
+  apply HC. split; assumption.
+Qed.
+
+(** ** The representation relation under the writers' stores *)
+
+Lemma RepP_ext ks ks' pm lv lv' m :
+  (forall a, In a pm -> ks' a = ks a) -> (forall a, In a pm -> lv' a = lv a) ->
+  RepP ks pm lv m -> RepP ks' pm lv' m.
+Proof.
+  intros Hk Hl R k. destruct (R k) as [R1 R2]. split.
+  - intros sl Hsl E. rewrite Hk in E by exact Hsl. rewrite Hl by exact Hsl. auto.
+  - intros H. apply R2. intros sl Hsl. rewrite <- Hk by exact Hsl. auto.
+Qed.
+
+Lemma RepP_insert ks pm lv m k r sl :
+  RepP ks pm lv m -> absent pm ks k -> ks sl = k -> lv sl <> 0 ->
+  RepP ks (insert_at r sl pm) lv (updm m k (Some (lv sl))).
+Proof.
+  intros R Hab Hk Hv k'. destruct (R k') as [R1 R2]. split.
+  - intros x Hx E. apply in_insert_at in Hx as [->|Hx].
+    + rewrite Hk in E. subst k'. rewrite updm_same.
+      destruct (N.eqb_spec (lv sl) 0); [contradiction|reflexivity].
+    + destruct (N.eq_dec k' k) as [->|Hne]; [exfalso; eapply Hab; eauto|].
+      rewrite updm_other by exact Hne. auto.
+  - intros H. destruct (N.eq_dec k' k) as [->|Hne].
+    + exfalso. apply (H sl); [apply in_insert_at; auto|exact Hk].
+    + rewrite updm_other by exact Hne. apply R2. intros x Hx. apply H. apply in_insert_at; auto.
+Qed.
+
+Lemma RepP_store ks pm lv m k sl w :
+  RepP ks pm lv m -> ksorted ks pm -> In sl pm -> ks sl = k ->
+  RepP ks pm (updf lv sl w) (updm m k (if w =? 0 then None else Some w)).
+Proof.
+  intros R Hs Hsl Hk k'. destruct (R k') as [R1 R2]. split.
+  - intros x Hx E. destruct (N.eq_dec k' k) as [->|Hne].
+    + assert (x = sl) by (eapply ksorted_inj; eauto; congruence). subst x.
+      rewrite updm_same, updf_same. reflexivity.
+    + rewrite updm_other by exact Hne. rewrite updf_other by congruence. auto.
+  - intros H. destruct (N.eq_dec k' k) as [->|Hne]; [exfalso; eapply H; eauto|].
+    rewrite updm_other by exact Hne. auto.
+Qed.
+
+Lemma RepP_shrink ks pm lv m rk :
+  RepP ks pm lv m -> (rk < length pm)%nat -> lv (nth rk pm 0%nat) = 0 ->
+  RepP ks (remove_at rk pm) lv m.
+Proof.
+  intros R Hrk Hz k'. destruct (R k') as [R1 R2]. split.
+  - intros x Hx E. apply R1; [eapply in_remove_at_incl; eauto|exact E].
+  - intros H. destruct (N.eq_dec (ks (nth rk pm 0%nat)) k') as [E|E].
+    + rewrite (R1 _ (nth_In pm 0%nat Hrk) E), Hz. reflexivity.
+    + apply R2. intros x Hx. apply (in_remove_at 0%nat rk x pm Hrk) in Hx as [->|Hx]; auto.
+Qed.
+
+(** ** Steps of the lock holder *)
+
+Lemma F_same (i : bool) (v : N) (pm : list nat) (ks : nat -> N) :
+  forall v0, v0 <= v -> v = v0 -> i = false ->
+    v = v0 /\ i = false /\ (forall sl : nat, ks sl = ks sl) /\ incl pm pm.
+Proof. intros. repeat split; auto. apply incl_refl. Qed.
+
+Lemma view_release s s' p :
+  sview_cs s p -> plain p = true -> b_insdel s' = false ->
+  b_perm s' = b_perm s -> b_lvs s' = b_lvs s -> sview_free s'.
+Proof.
+  intros (_ & _ & V3 & V4) Hp Hi Ep El. unfold sview_free. rewrite Ep, El.
+  split; [exact Hi|]. split.
+  - intros sl H1 H2. specialize (V3 sl H1 H2). destruct p; try contradiction; discriminate.
+  - intros sl H1. destruct (N.eq_dec (b_lvs s sl) 0) as [E|E]; [exact E|].
+    specialize (V4 sl H1 E). destruct p; try contradiction; discriminate.
+Qed.
+
+(** holder step that leaves the ghost map and the other threads alone *)
+Lemma inv_holder_plain s t o p' l' i' v' pm' ks' lv' :
+  Inv s -> t_op (b_thr s t) = Some o -> in_cs (t_pc (b_thr s t)) = true ->
+  let s' := set_pc {| b_locked := l'; b_insdel := i'; b_vins := v'; b_perm := pm';
+                      b_keys := ks'; b_lvs := lv'; bm := bm s; b_thr := b_thr s |} t p' in
+  b_vins s <= v' ->
+  (forall v, v <= b_vins s -> v' = v -> i' = false ->
+     b_vins s = v /\ b_insdel s = false /\ (forall sl, ks' sl = b_keys s sl) /\ incl pm' (b_perm s)) ->
+  (if in_cs p' then sview_cs s' p' else l' = false /\ sview_free s') ->
+  ksorted ks' pm' -> RepP ks' pm' lv' (bm s) ->
+  TP i' v' pm' ks' lv' o (t_seen (b_thr s t)) p' ->
+  Inv s'.
+Proof.
+  intros HI Ho Hcs s' Hv F Hview Hsort Hrep HP.
+  destruct (inv_thr_facts s t o HI Ho) as (Hok & Hin & _).
+  apply (inv_holder_step s s' t p' HI Hcs); auto.
+  - unfold s'. cbn [set_pc b_thr]. rewrite updf_same. reflexivity.
+  - intros t' Hne. unfold s'. cbn [set_pc b_thr bm]. rewrite updf_other by exact Hne.
+    repeat split; auto. apply incl_refl.
+  - unfold s', TIs, TI. cbn [set_pc b_thr b_insdel b_vins b_perm b_keys b_lvs bm].
+    rewrite updf_same. cbn [t_op t_pc t_seen]. rewrite Ho. auto.
+Qed.
+
+(** holder step that is a linearization point: the ghost map changes at the
+    holder's key and every in-flight operation on it records the binding *)
+Lemma inv_holder_nb s t o p' x l' i' v' pm' ks' lv' :
+  Inv s -> t_op (b_thr s t) = Some o -> in_cs (t_pc (b_thr s t)) = true ->
+  let k := op_key o in
+  let s' := set_pc {| b_locked := l'; b_insdel := i'; b_vins := v'; b_perm := pm';
+                      b_keys := ks'; b_lvs := lv'; bm := updm (bm s) k x;
+                      b_thr := note_binding (b_thr s) k x |} t p' in
+  b_vins s <= v' ->
+  (forall v, v <= b_vins s -> v' = v -> i' = false ->
+     b_vins s = v /\ b_insdel s = false /\ (forall sl, ks' sl = b_keys s sl) /\ incl pm' (b_perm s)) ->
+  (if in_cs p' then sview_cs s' p' else l' = false /\ sview_free s') ->
+  ksorted ks' pm' -> RepP ks' pm' lv' (updm (bm s) k x) ->
+  TP i' v' pm' ks' lv' o (x :: t_seen (b_thr s t)) p' ->
+  Inv s'.
+Proof.
+  intros HI Ho Hcs k s' Hv F Hview Hsort Hrep HP.
+  destruct (inv_thr_facts s t o HI Ho) as (Hok & Hin & _).
+  apply (inv_holder_step s s' t p' HI Hcs); auto.
+  - unfold s'. cbn [set_pc b_thr]. rewrite updf_same. reflexivity.
+  - intros t' Hne. unfold s'. cbn [set_pc b_thr bm]. rewrite updf_other by exact Hne.
+    rewrite nb_op, nb_pc. repeat split; auto.
+    + apply nb_seen_incl.
+    + intros o' Ho' Hin'. apply nb_seen_bm; auto.
+  - unfold s', TIs, TI. cbn [set_pc b_thr b_insdel b_vins b_perm b_keys b_lvs bm].
+    rewrite updf_same. cbn [t_op t_pc t_seen]. rewrite nb_op, Ho.
+    rewrite (nb_seen_self (b_thr s) k x t o Ho eq_refl).
+    split; [exact Hok|]. split; [|exact HP]. fold k. rewrite updm_same. cbn; auto.
+Qed.
